@@ -3,7 +3,9 @@
 mod c08;
 mod c09;
 mod c10;
+mod c15;
 mod c16;
+mod c19;
 mod lang;
 mod sexp;
 
@@ -20,6 +22,10 @@ fn dispatch(case: &Sexp) -> Option<Sexp> {
         "ctx-history" | "build-array" | "build-map" => c08::run(head, args),
         "registry-history" => c16::run(head, args),
         "contains" | "simd-active" => c10::run(head, args),
+        "type-codec" | "type-json" | "scheme-json" | "scheme-roundtrip" | "ctype-build" | "ctype-decode" => {
+            c15::run(head, args)
+        }
+        "panic-prog" | "panic-2threads" => c19::run(head, args, case),
         "exec" => lang::run_exec(args),
         "exec-value" => lang::run_exec_value(args),
         "typecheck" => lang::run_typecheck(args, false),
@@ -39,6 +45,16 @@ fn panic_message(p: Box<dyn std::any::Any + Send>) -> String {
 }
 
 fn main() {
+    // C19: `wfh --c19-abort-probe '<case>'` runs one panic-catcher program unguarded (may abort).
+    let argv: Vec<String> = std::env::args().collect();
+    if argv.len() == 3 && argv[1] == "--c19-abort-probe" {
+        c19::abort_probe(&argv[2]);
+    }
+    if argv.len() == 3 && argv[1] == "--c19-install-race" {
+        c19::install_race(argv[2].parse().unwrap_or(2));
+    }
+    // Silent hook; the first C19 case replaces it by an equally silent sentinel hook followed by
+    // wirefilter's panic catcher hook (c19::install_hooks), for the rest of the process.
     std::panic::set_hook(Box::new(|_| {}));
     let stdin = std::io::stdin();
     let stdout = std::io::stdout();
